@@ -112,7 +112,7 @@ theorem cloadJoin_boots (st : St) (w : Waiter) (g : String) : bootsOf (cloadJoin
   · rfl
   · exact bootsOf_append_done _ _ _ rfl rfl
 
-theorem getBrokerClient_unawares {st st' : St} {n : Int} {b : Nat} {obs : List Ob}
+theorem getBrokerClient_unawaresA {st st' : St} {n : Int} {b : Nat} {obs : List Ob}
     (h : getBrokerClient st n = .ok (st', b, obs)) : st'.unawares = st.unawares := by
   unfold getBrokerClient at h
   split at h
@@ -126,14 +126,14 @@ theorem getBrokerClient_unawares {st st' : St} {n : Int} {b : Nat} {obs : List O
 theorem issueTo_unawares_ok {cfg : Cfg} {st : St} {n : Int} {o : ReqOwner} {e : Bool} {w : ReqWhat} {m : Option Rat} {rj : Bool}
     {i : IssueOk} (hi : issueTo cfg st n o e w m rj = .ok i) : i.st.unawares = st.unawares := by
   obtain ⟨st1, b, obs1, hg, h1, _, _, _⟩ := issueTo_ok hi
-  have := getBrokerClient_unawares hg
+  have := getBrokerClient_unawaresA hg
   rw [h1]; exact this
 
 theorem issueTo_unawares_err {cfg : Cfg} {st : St} {n : Int} {o : ReqOwner} {e : Bool} {w : ReqWhat} {m : Option Rat} {rj : Bool}
     {er : IssueErr} (he : issueTo cfg st n o e w m rj = .error er) : er.st.unawares = st.unawares := by
   rcases issueTo_err he with ⟨h1, _⟩ | ⟨b, hg⟩
   · rw [h1]
-  · exact getBrokerClient_unawares hg
+  · exact getBrokerClient_unawaresA hg
 
 theorem exec_bext (cfg : Cfg) (st : St) (a : Act) : BExt a st (exec cfg st a).1 := by
   cases a
